@@ -39,9 +39,9 @@ func init() {
 		Title: "Event listings follow log order and honour since/until/reverse exactly",
 		Explanation: "Decides, from the type-checked SSA of /repo and without executing it: (D1) the entry slice that MetadataStore.ListEvents and MessageStore.ListEvents hand to their range selector is the log's deterministic clock-sorted traversal, oldest first (go-ipfs-log Log.Values() with an even number of reversals); a slice taken from the insertion-ordered entry map (GetEntries), from the heads, or reversed an odd number of times is reported; an order source the rule does not know is undecided, never 'held'. " +
 			"(D2) both list RPC handlers pass the request's since_id, until_id and reverse_order to the store's ListEvents in the positions of its since, until and reverse parameters; the slice given to the iterator is the selector's result; the iterator callback emits synchronously (no goroutine per entry). " +
-			"(D3) for each handler, the parameter check it calls, composed with the request fields given at the call site, is evaluated for all 32 combinations of (since_id set, until_id set, since_now, until_now, reverse_order) and fails exactly where DESIGN.md B.2 requires; its error is enforced before the listing. " +
-			"(D4) for each store, the range selector and the iterator are evaluated exhaustively on abstract logs of 0..12 distinct entries (oldest first) for every (since, until) in {unset, each entry, unknown identifier} and both values of reverse, with the arguments composed as ListEvents passes them: the selected entries are exactly the inclusive range, an unknown identifier or since-after-until gives an error carrying ErrInvalidRange, and the iterator visits every selected entry once in forward order, or exactly reversed when reverse is set. " +
-			"(D5) ListEvents returns the selector's error; the handlers return ListEvents' error. (D6) the handlers call ListEvents exactly when since_now is unset and on no other request field. " +
+			"(D3) for each handler, the parameter check it calls (a module function all of whose arguments are request fields or constants, passed directly or as the fields of a local struct value such as a method receiver), composed with the request fields given at the call site, is evaluated for all 32 combinations of (since_id set, until_id set, since_now, until_now, reverse_order) and fails exactly where DESIGN.md B.2 requires; its error is enforced before the listing. " +
+			"(D4) for each store, the range selector and the iterator are evaluated exhaustively on abstract logs of 0..12 distinct entries (oldest first) for every (since, until) in {unset, each entry, unknown identifier} and both values of reverse, with the arguments composed as ListEvents passes them: the selected entries are exactly the inclusive range, an unknown identifier or since-after-until gives an error carrying ErrInvalidRange, and the iterator (a module function, or the function value a module chooser returns for the reverse flag, evaluated for both values) visits every selected entry once in forward order, or exactly reversed when reverse is set. " +
+			"(D5) ListEvents returns the selector's error; the handlers return ListEvents' error. (D6) for every request shape the parameter table accepts, the conditions under which the handler calls ListEvents (request fields, nil tests of them, and module predicates over request fields, evaluated) hold exactly when since_now is unset. " +
 			"(D7) in each handler, a channel that hands replayed events from a forwarding goroutine to the loop that calls the stream's Send is a rendez-vous channel (constant capacity 0) whenever the forwarder signals completion out of band, i.e. calls the cancel function of a context whose Done() the send loop selects on next to that channel and answers by returning: with a buffer the cancel can overtake queued events and the stream ends without its last events; completion signalled in band (sentinel, close) carries no such requirement. " +
 			"(D8) every send on the channel a ListEvents returns hands over an event that exists: the value sent is either freshly built, or tested non-nil, or the result of the call that opened the entry and the send is reachable only through the nil-error side of that call's error (a compound condition whose other side still contains an error case is reported): the list RPCs read a nil event as the end of the listing, so one nil event silently drops the rest of the range. " +
 			"Not decided: that Values() itself is a correct, replica-independent linearisation (go-ipfs-log, trusted at its documented API); that entries which fail to open are skipped without disturbing the order of the others (D8 only excludes that they are emitted as nil events); the interleaving of replayed and live events in the RPC stream (D7 only excludes the loss of queued replayed events at an out-of-band end of stream); behaviour for logs above 12 entries beyond what the size-independent evaluation suggests; concurrent appends during a listing.",
@@ -83,9 +83,11 @@ func c13IsBytes(t types.Type) bool {
 	return ok && b.Kind() == types.Byte
 }
 
+// c13IsEntryFunc: a per-entry visitor, func(entry) without results (a function that opens an
+// entry and returns the event is not a visitor).
 func c13IsEntryFunc(t types.Type) bool {
 	sig, ok := t.Underlying().(*types.Signature)
-	return ok && sig.Params().Len() >= 1 && c13IsEntry(sig.Params().At(0).Type())
+	return ok && sig.Params().Len() >= 1 && sig.Results().Len() == 0 && c13IsEntry(sig.Params().At(0).Type())
 }
 
 // ---------------------------------------------------------------------------
@@ -203,6 +205,93 @@ func c13UniqueStore(al ssa.Value) ssa.Value {
 	return vals[0]
 }
 
+// c13StructAlloc: addr is (a captured reference to) a local variable of struct type.
+func c13StructAlloc(addr ssa.Value) *ssa.Alloc {
+	for i := 0; i < 4; i++ {
+		fv, ok := addr.(*ssa.FreeVar)
+		if !ok {
+			break
+		}
+		b := c13Binding(fv)
+		if b == nil {
+			return nil
+		}
+		addr = b
+	}
+	al, ok := addr.(*ssa.Alloc)
+	if !ok {
+		return nil
+	}
+	if _, isStruct := al.Type().Underlying().(*types.Pointer).Elem().Underlying().(*types.Struct); !isStruct {
+		return nil
+	}
+	return al
+}
+
+// c13FieldStore: the only value ever stored into field i of the local struct variable al
+// (looking into the closures that capture it). nil when the field is stored several times or
+// never, when the variable is overwritten as a whole, or when its address escapes (passed to
+// a call, stored): n is the number of stores seen, -1 for an escape.
+func c13FieldStore(al *ssa.Alloc, field int) (val ssa.Value, n int) {
+	var vals []ssa.Value
+	escaped := false
+	var visit func(addr ssa.Value, depth int)
+	visit = func(addr ssa.Value, depth int) {
+		if addr.Referrers() == nil || depth > 4 {
+			escaped = true
+			return
+		}
+		for _, r := range *addr.Referrers() {
+			switch u := r.(type) {
+			case *ssa.FieldAddr:
+				if u.X != addr || u.Referrers() == nil {
+					escaped = true
+					continue
+				}
+				for _, r2 := range *u.Referrers() {
+					switch w := r2.(type) {
+					case *ssa.Store:
+						if w.Addr != ssa.Value(u) {
+							escaped = true // the field's address is stored somewhere
+						} else if u.Field == field {
+							vals = append(vals, w.Val)
+						}
+					case *ssa.UnOp, *ssa.DebugRef:
+					default:
+						if u.Field == field {
+							escaped = true
+						}
+					}
+				}
+			case *ssa.UnOp, *ssa.DebugRef:
+			case *ssa.Store:
+				escaped = true // whole-variable store, or the address stored elsewhere
+			case *ssa.MakeClosure:
+				f, isF := u.Fn.(*ssa.Function)
+				if !isF {
+					escaped = true
+					continue
+				}
+				for i, b := range u.Bindings {
+					if b == addr && i < len(f.FreeVars) {
+						visit(f.FreeVars[i], depth+1)
+					}
+				}
+			default:
+				escaped = true
+			}
+		}
+	}
+	visit(al, 0)
+	if escaped {
+		return nil, -1
+	}
+	if len(vals) != 1 {
+		return nil, len(vals)
+	}
+	return vals[0], 1
+}
+
 func c13IsGetter(cc *ssa.CallCommon) (string, bool) {
 	f := staticCallee(cc)
 	if f == nil || f.Signature.Recv() == nil || len(cc.Args) != 1 || !strings.HasPrefix(f.Name(), "Get") || len(f.Name()) < 4 {
@@ -244,6 +333,16 @@ func c13Resolve(v ssa.Value) c13Origin {
 			v = b
 		case *ssa.Field:
 			st := x.X.Type().Underlying().(*types.Struct)
+			if ld, ok := x.X.(*ssa.UnOp); ok && ld.Op == token.MUL {
+				if al := c13StructAlloc(ld.X); al != nil {
+					fs, n := c13FieldStore(al, x.Field)
+					if fs == nil {
+						return unknown(fmt.Sprintf("field %s of local %s is assigned %d times or the variable escapes", st.Field(x.Field).Name(), al.Comment, n))
+					}
+					v = fs
+					continue
+				}
+			}
 			o.Path = "." + st.Field(x.Field).Name() + o.Path
 			v = x.X
 		case *ssa.UnOp:
@@ -273,6 +372,15 @@ func c13Resolve(v ssa.Value) c13Origin {
 					v = st
 				case *ssa.FieldAddr:
 					st := a.X.Type().Underlying().(*types.Pointer).Elem().Underlying().(*types.Struct)
+					if al := c13StructAlloc(a.X); al != nil {
+						// field of a local struct variable: the one value assigned to that field
+						fs, n := c13FieldStore(al, a.Field)
+						if fs == nil {
+							return unknown(fmt.Sprintf("field %s of local %s is assigned %d times or the variable escapes", st.Field(a.Field).Name(), al.Comment, n))
+						}
+						v = fs
+						continue
+					}
 					o.Path = "." + st.Field(a.Field).Name() + o.Path
 					v = a.X
 				default:
@@ -415,6 +523,21 @@ func (sc *c13Scope) outermost(calls []*ssa.Call) []*ssa.Call {
 	return out
 }
 
+// anyCalls: like calls, but also calls of function values (callee unknown statically).
+func (sc *c13Scope) anyCalls(match func(call *ssa.Call) bool) []*ssa.Call {
+	var out []*ssa.Call
+	for _, fn := range sc.funcs {
+		for _, b := range fn.Blocks {
+			for _, in := range b.Instrs {
+				if call, ok := in.(*ssa.Call); ok && match(call) {
+					out = append(out, call)
+				}
+			}
+		}
+	}
+	return out
+}
+
 func (sc *c13Scope) calls(match func(fn *ssa.Function, call *ssa.Call, callee *ssa.Function) bool) []*ssa.Call {
 	var out []*ssa.Call
 	for _, fn := range sc.funcs {
@@ -495,6 +618,12 @@ func (ip *c13Interp) stop(kind, format string, a ...any) {
 // c13Run evaluates fn(args); outcome is "return", "panic" (the evaluated code would panic)
 // or "unsupported".
 func c13Run(fn *ssa.Function, args []c13V) (res []c13V, visited []int, outcome, why string) {
+	return c13RunFn(c13Fn{Fn: fn}, args)
+}
+
+// c13RunFn evaluates a function value (a function with the variables it captured).
+func c13RunFn(fv c13Fn, args []c13V) (res []c13V, visited []int, outcome, why string) {
+	fn := fv.Fn
 	ip := &c13Interp{}
 	defer func() {
 		if r := recover(); r != nil {
@@ -505,7 +634,7 @@ func c13Run(fn *ssa.Function, args []c13V) (res []c13V, visited []int, outcome, 
 			panic(r)
 		}
 	}()
-	res = ip.call(fn, args, nil, 0)
+	res = ip.call(fn, args, fv.Bind, 0)
 	return res, ip.visited, "return", ""
 }
 
@@ -1152,22 +1281,110 @@ func c13IsSelector(f *ssa.Function) bool {
 	return c13IsEntrySlice(res.At(0).Type()) && isErrorType(res.At(1).Type())
 }
 
-func c13IsIterator(f *ssa.Function) bool {
-	if f == nil || f.Blocks == nil || !inModule(f) {
+// c13CallParams: the parameter types and names a call's arguments line up with (the callee's
+// parameters including a receiver for a static call, the signature's for a function value).
+func c13CallParams(call *ssa.Call) (typs []types.Type, names []string) {
+	cc := call.Common()
+	if f := staticCallee(cc); f != nil {
+		for _, p := range f.Params {
+			typs = append(typs, p.Type())
+			names = append(names, p.Name())
+		}
+		return
+	}
+	ps := cc.Signature().Params()
+	for i := 0; i < ps.Len(); i++ {
+		typs = append(typs, ps.At(i).Type())
+		names = append(names, ps.At(i).Name())
+	}
+	return
+}
+
+// c13IsIterSite: a call that walks a list of entries with a per-entry visitor: exactly one
+// []entry argument and one func(entry) argument, at most one bool (the direction). The callee
+// is a module function, or a function value (then chosen elsewhere, e.g. from the direction).
+func c13IsIterSite(call *ssa.Call) bool {
+	cc := call.Common()
+	if cc.IsInvoke() {
+		return false
+	}
+	if _, isB := cc.Value.(*ssa.Builtin); isB {
+		return false
+	}
+	if f := staticCallee(cc); f != nil && (f.Blocks == nil || !inModule(f)) {
+		return false
+	}
+	typs, _ := c13CallParams(call)
+	if len(typs) != len(cc.Args) {
 		return false
 	}
 	ne, nb, nf := 0, 0, 0
-	for _, p := range f.Params {
+	for _, t := range typs {
 		switch {
-		case c13IsEntrySlice(p.Type()):
+		case c13IsEntrySlice(t):
 			ne++
-		case isBoolType(p.Type()):
+		case isBoolType(t):
 			nb++
-		case c13IsEntryFunc(p.Type()):
+		case c13IsEntryFunc(t):
 			nf++
 		}
 	}
-	return ne == 1 && nb == 1 && nf == 1
+	return ne == 1 && nf == 1 && nb <= 1
+}
+
+// iterFuncs: the function that walks the entries when ListEvents is called with reverse=false
+// and with reverse=true. A static callee is that function for both; a function value is
+// followed to the module function that returned it (the chooser), which is evaluated with its
+// arguments composed as ListEvents passes them.
+func (st *c13Store) iterFuncs() (fns map[bool]c13Fn, name, undecided string) {
+	cc := st.Iterator.Common()
+	if f := staticCallee(cc); f != nil {
+		var bind []c13V
+		if _, isMC := cc.Value.(*ssa.MakeClosure); isMC {
+			return nil, "", "the iterator is a function literal called in place"
+		}
+		return map[bool]c13Fn{false: {Fn: f, Bind: bind}, true: {Fn: f, Bind: bind}}, fnName(f), ""
+	}
+	o := st.Scope.resolve(cc.Value)
+	if o.Kind != "result" || o.Neg || o.Path != "" {
+		return nil, "", "the function that walks the entries is " + o.String() + ": not a module function and not the result of one"
+	}
+	chooser := staticCallee(o.Call.Common())
+	if chooser == nil || chooser.Blocks == nil || !inModule(chooser) {
+		return nil, "", "the function that walks the entries is returned by " + calleeKey(o.Call.Common()) + ", which has no body in the module"
+	}
+	specs, why := st.argSpecs(o.Call)
+	if specs == nil {
+		return nil, "", why
+	}
+	fns = map[bool]c13Fn{}
+	for _, rev := range []bool{false, true} {
+		args := make([]c13V, len(specs))
+		for i, sp := range specs {
+			switch sp.Kind {
+			case "reverse":
+				args[i] = c13Bool(rev != sp.Neg)
+			case "const":
+				args[i] = c13ConstVal(sp.C, sp.Neg)
+			default:
+				args[i] = c13Opaque{Tag: sp.Kind}
+			}
+		}
+		res, _, outcome, ywhy := c13Run(chooser, args)
+		if outcome != "return" {
+			return nil, "", fmt.Sprintf("%s, which chooses the function that walks the entries, %s: %s", fnName(chooser), map[bool]string{true: "panics", false: "is written in a form the evaluator does not model"}[outcome == "panic"], ywhy)
+		}
+		fv, ok := c13V(nil), false
+		if o.Index < len(res) {
+			fv, ok = res[o.Index], true
+		}
+		f, isF := fv.(c13Fn)
+		if !ok || !isF || f.Fn == nil || f.Fn.Blocks == nil {
+			return nil, "", fmt.Sprintf("%s does not return a module function for reverse=%v", fnName(chooser), rev)
+		}
+		fns[rev] = f
+	}
+	return fns, "the function chosen by " + fnName(chooser), ""
 }
 
 type c13Handler struct {
@@ -1263,7 +1480,7 @@ func c13FindStore(c *Ctx, typeName string) *c13Store {
 		c.analysed(f)
 	}
 	sel := st.Scope.outermost(st.Scope.calls(func(_ *ssa.Function, _ *ssa.Call, f *ssa.Function) bool { return c13IsSelector(f) }))
-	it := st.Scope.outermost(st.Scope.calls(func(_ *ssa.Function, _ *ssa.Call, f *ssa.Function) bool { return c13IsIterator(f) }))
+	it := st.Scope.outermost(st.Scope.anyCalls(c13IsIterSite))
 	if len(sel) == 1 {
 		st.Selector = sel[0]
 	}
@@ -1430,11 +1647,14 @@ func c13D2Store(c *Ctx, st *c13Store) {
 		c.undecided("D2", construct, st.LE.Pos(), "ListEvents (with its closures and helpers) does not call exactly one selector and one iterator ([]entry, bool, func(entry)): plumbing cannot be followed")
 		return
 	}
-	itF := staticCallee(st.Iterator.Common())
-	c.analysed(itF)
+	itTypes, _ := c13CallParams(st.Iterator)
+	itFns, _, itWhy := st.iterFuncs()
+	for _, f := range itFns {
+		c.analysed(f.Fn)
+	}
 	c.analysed(staticCallee(st.Selector.Common()))
-	for i, p := range itF.Params {
-		if !c13IsEntrySlice(p.Type()) {
+	for i, pt := range itTypes {
+		if !c13IsEntrySlice(pt) {
 			continue
 		}
 		a := st.Iterator.Common().Args[i]
@@ -1448,11 +1668,22 @@ func c13D2Store(c *Ctx, st *c13Store) {
 	}
 	// the callback emits synchronously
 	construct = st.Name + "+callback"
-	for i, p := range itF.Params {
-		if !c13IsEntryFunc(p.Type()) {
+	for i, pt := range itTypes {
+		if !c13IsEntryFunc(pt) {
 			continue
 		}
 		a := st.Iterator.Common().Args[i]
+		for {
+			if ct, ok := a.(*ssa.ChangeType); ok {
+				a = ct.X
+				continue
+			}
+			break
+		}
+		if itFns == nil {
+			c.undecided("D2", construct, posOf(st.Iterator), "%s", itWhy)
+			continue
+		}
 		var cb *ssa.Function
 		switch x := a.(type) {
 		case *ssa.MakeClosure:
@@ -1465,8 +1696,11 @@ func c13D2Store(c *Ctx, st *c13Store) {
 			continue
 		}
 		async := ""
-		sc := c13NewScope(cb, 0)
-		for _, f := range append(sc.funcs, itF) {
+		scan := append([]*ssa.Function(nil), c13NewScope(cb, 0).funcs...)
+		for _, rev := range []bool{false, true} {
+			scan = append(scan, c13NewScope(itFns[rev].Fn, 0).funcs...)
+		}
+		for _, f := range scan {
 			for _, b := range f.Blocks {
 				for _, in := range b.Instrs {
 					if g, ok := in.(*ssa.Go); ok {
@@ -1533,19 +1767,25 @@ type c13ArgSpec struct {
 }
 
 func (st *c13Store) argSpecs(call *ssa.Call) ([]c13ArgSpec, string) {
-	f := staticCallee(call.Common())
-	specs := make([]c13ArgSpec, len(f.Params))
-	for i, p := range f.Params {
+	typs, names := c13CallParams(call)
+	callee := calleeKey(call.Common())
+	if f := staticCallee(call.Common()); f != nil {
+		callee = f.Name()
+	} else if callee == "" {
+		callee = "the function value called"
+	}
+	specs := make([]c13ArgSpec, len(typs))
+	for i, pt := range typs {
 		if i >= len(call.Common().Args) {
 			return nil, "argument count"
 		}
 		a := call.Common().Args[i]
 		switch {
-		case c13IsEntrySlice(p.Type()):
+		case c13IsEntrySlice(pt):
 			specs[i] = c13ArgSpec{Kind: "entries"}
-		case c13IsEntryFunc(p.Type()):
+		case c13IsEntryFunc(pt):
 			specs[i] = c13ArgSpec{Kind: "callback"}
-		case c13IsBytes(p.Type()), isBoolType(p.Type()):
+		case c13IsBytes(pt), isBoolType(pt):
 			o := st.Scope.resolve(a)
 			switch {
 			case o.Kind == "const":
@@ -1557,7 +1797,7 @@ func (st *c13Store) argSpecs(call *ssa.Call) ([]c13ArgSpec, string) {
 			case o.Kind == "param" && o.Fn == st.LE && o.Path == "" && o.Index == st.RevI:
 				specs[i] = c13ArgSpec{Kind: "reverse", Neg: o.Neg}
 			default:
-				return nil, fmt.Sprintf("argument %q of %s is %s, not one of ListEvents' since/until/reverse parameters or a constant", p.Name(), f.Name(), o.String())
+				return nil, fmt.Sprintf("argument %q of %s is %s, not one of ListEvents' since/until/reverse parameters or a constant", names[i], callee, o.String())
 			}
 		default:
 			specs[i] = c13ArgSpec{Kind: "opaque"}
@@ -1767,9 +2007,13 @@ func c13D4(c *Ctx, st *c13Store, invalidRange int64, haveCode bool) {
 		return
 	}
 	pos = posOf(st.Iterator)
-	itF := staticCallee(st.Iterator.Common())
 	specs, why := st.argSpecs(st.Iterator)
 	if specs == nil {
+		undecidedAll(itNames, "%s", why)
+		return
+	}
+	itFns, itName, why := st.iterFuncs()
+	if itFns == nil {
 		undecidedAll(itNames, "%s", why)
 		return
 	}
@@ -1792,7 +2036,7 @@ func c13D4(c *Ctx, st *c13Store, invalidRange int64, haveCode bool) {
 					args[i] = c13Opaque{Tag: sp.Kind}
 				}
 			}
-			_, visited, outcome, ywhy := c13Run(itF, args)
+			_, visited, outcome, ywhy := c13RunFn(itFns[rev], args)
 			switch {
 			case outcome == "unsupported":
 				unsupported = ywhy
@@ -1804,9 +2048,9 @@ func c13D4(c *Ctx, st *c13Store, invalidRange int64, haveCode bool) {
 		}
 		switch {
 		case unsupported != "":
-			c.undecided("D4", construct, pos, "the iterator %s is written in a form the evaluator does not model: %s", fnName(itF), unsupported)
+			c.undecided("D4", construct, pos, "the iterator (%s) is written in a form the evaluator does not model: %s", itName, unsupported)
 		case bad != "":
-			c.fail("D4", construct, pos, "%s as called by ListEvents: %s", fnName(itF), bad)
+			c.fail("D4", construct, pos, "%s as called by ListEvents: %s", itName, bad)
 		default:
 			c.ok("D4", construct, pos, "ranges of 0..%d entries are visited once each, %s, when ListEvents is called with reverse=%v", c13MaxLog, map[bool]string{false: "oldest first", true: "newest first"}[rev], rev)
 		}
@@ -1905,30 +2149,17 @@ func c13B2(sinceID, untilID, sinceNow, untilNow, reverse bool) bool {
 
 func c13D3(c *Ctx, h *c13Handler) {
 	// the check: a module function returning only an error, every argument of which is a
-	// request field or a constant, at least three of them list parameters
+	// request field or a constant (directly, or as the fields of a local struct value such as
+	// a method receiver), at least three of them list parameters
 	type cand struct {
 		call  *ssa.Call
-		specs []c13Origin
+		specs []c13ReqArg
 	}
 	var cands []cand
 	for _, call := range h.Scope.calls(func(fn *ssa.Function, call *ssa.Call, f *ssa.Function) bool {
-		return inModule(f) && f.Blocks != nil && f.Signature.Results().Len() == 1 && isErrorType(f.Signature.Results().At(0).Type()) && len(call.Common().Args) >= 3
+		return inModule(f) && f.Blocks != nil && f.Signature.Results().Len() == 1 && isErrorType(f.Signature.Results().At(0).Type())
 	}) {
-		n := 0
-		var specs []c13Origin
-		all := true
-		for _, a := range call.Common().Args {
-			o := h.Scope.resolve(a)
-			specs = append(specs, o)
-			switch {
-			case o.Kind == "const":
-			case o.Kind == "param" && o.Fn == h.Fn && o.Index == h.ReqIdx && c13IsReqField(o.Path):
-				n++
-			default:
-				all = false
-			}
-		}
-		if all && n >= 3 {
+		if specs, n, ok := h.reqArgs(call); ok && n >= 3 {
 			cands = append(cands, cand{call, specs})
 		}
 	}
@@ -1965,32 +2196,11 @@ func c13D3(c *Ctx, h *c13Handler) {
 	}
 	// the table
 	nrows := 0
-	for mask := 0; mask < 32; mask++ {
-		f := map[string]bool{"SinceId": mask&1 != 0, "UntilId": mask&2 != 0, "SinceNow": mask&4 != 0, "UntilNow": mask&8 != 0, "ReverseOrder": mask&16 != 0}
-		b := func(v bool) int {
-			if v {
-				return 1
-			}
-			return 0
-		}
-		row := fmt.Sprintf("since_id=%d,until_id=%d,since_now=%d,until_now=%d,reverse_order=%d", b(f["SinceId"]), b(f["UntilId"]), b(f["SinceNow"]), b(f["UntilNow"]), b(f["ReverseOrder"]))
-		construct := fmt.Sprintf("%s+check[%s]", h.Name, row)
+	for _, f := range c13RequestRows() {
+		construct := fmt.Sprintf("%s+check[%s]", h.Name, c13RowName(f))
 		args := make([]c13V, len(specs))
-		for i, o := range specs {
-			if o.Kind == "const" {
-				args[i] = c13ConstVal(o.Const, o.Neg)
-				continue
-			}
-			name := strings.TrimPrefix(o.Path, ".")
-			if c13IsBytes(pf.Params[i].Type()) {
-				if f[name] {
-					args[i] = c13Bytes{ID: 1 + i}
-				} else {
-					args[i] = c13NilV{}
-				}
-			} else {
-				args[i] = c13Bool(f[name] != o.Neg)
-			}
+		for i, ra := range specs {
+			args[i] = ra.value(f)
 		}
 		want := c13B2(f["SinceId"], f["UntilId"], f["SinceNow"], f["UntilNow"], f["ReverseOrder"])
 		res, _, outcome, why := c13Run(pf, args)
@@ -2008,6 +2218,126 @@ func c13D3(c *Ctx, h *c13Handler) {
 		}
 	}
 	c.count("parameter_rows", nrows)
+}
+
+// c13ReqArg: an argument made of request fields and constants only: a scalar, or a value of
+// a local struct type whose fields are such scalars.
+type c13ReqArg struct {
+	Leaf   *c13Origin
+	Zero   bool // never assigned: the zero value
+	Fields []c13ReqArg
+	Typ    types.Type
+}
+
+func (h *c13Handler) reqArg(v ssa.Value) (c13ReqArg, bool) {
+	t := v.Type()
+	if stt, isStruct := t.Underlying().(*types.Struct); isStruct {
+		ld, ok := v.(*ssa.UnOp)
+		if !ok || ld.Op != token.MUL {
+			return c13ReqArg{}, false
+		}
+		al := c13StructAlloc(ld.X)
+		if al == nil {
+			return c13ReqArg{}, false
+		}
+		out := c13ReqArg{Typ: t}
+		for i := 0; i < stt.NumFields(); i++ {
+			fs, n := c13FieldStore(al, i)
+			switch {
+			case fs != nil:
+				if _, nested := fs.Type().Underlying().(*types.Struct); nested {
+					return c13ReqArg{}, false
+				}
+				fa, ok := h.reqArg(fs)
+				if !ok {
+					return c13ReqArg{}, false
+				}
+				out.Fields = append(out.Fields, fa)
+			case n == 0:
+				out.Fields = append(out.Fields, c13ReqArg{Zero: true, Typ: stt.Field(i).Type()})
+			default:
+				return c13ReqArg{}, false
+			}
+		}
+		return out, true
+	}
+	o := h.Scope.resolve(v)
+	switch {
+	case o.Kind == "const":
+	case o.Kind == "param" && o.Fn == h.Fn && o.Index == h.ReqIdx && c13IsReqField(o.Path):
+	default:
+		return c13ReqArg{}, false
+	}
+	return c13ReqArg{Leaf: &o, Typ: t}, true
+}
+
+// fields: the request fields the argument is made of.
+func (a c13ReqArg) fields() []string {
+	var out []string
+	if a.Leaf != nil && a.Leaf.Kind == "param" {
+		out = append(out, strings.TrimPrefix(a.Leaf.Path, "."))
+	}
+	for _, f := range a.Fields {
+		out = append(out, f.fields()...)
+	}
+	return out
+}
+
+// value: the argument for a request in which the named fields are set (bytes) / true (bools).
+func (a c13ReqArg) value(f map[string]bool) c13V {
+	switch {
+	case a.Fields != nil:
+		sv := c13StructV{}
+		for _, x := range a.Fields {
+			sv.F = append(sv.F, x.value(f))
+		}
+		return sv
+	case a.Zero || a.Leaf == nil:
+		return c13Zero(a.Typ)
+	case a.Leaf.Kind == "const":
+		return c13ConstVal(a.Leaf.Const, a.Leaf.Neg)
+	}
+	name := strings.TrimPrefix(a.Leaf.Path, ".")
+	if c13IsBytes(a.Typ) {
+		if f[name] {
+			return c13Bytes{ID: 1}
+		}
+		return c13NilV{}
+	}
+	return c13Bool(f[name] != a.Leaf.Neg)
+}
+
+// reqArgs: every argument of the call is made of request fields and constants.
+func (h *c13Handler) reqArgs(call *ssa.Call) ([]c13ReqArg, int, bool) {
+	var out []c13ReqArg
+	n := 0
+	for _, a := range call.Common().Args {
+		ra, ok := h.reqArg(a)
+		if !ok {
+			return nil, 0, false
+		}
+		n += len(ra.fields())
+		out = append(out, ra)
+	}
+	return out, n, true
+}
+
+func c13RequestRows() []map[string]bool {
+	var rows []map[string]bool
+	for mask := 0; mask < 32; mask++ {
+		rows = append(rows, map[string]bool{"SinceId": mask&1 != 0, "UntilId": mask&2 != 0, "SinceNow": mask&4 != 0, "UntilNow": mask&8 != 0, "ReverseOrder": mask&16 != 0})
+	}
+	return rows
+}
+
+func c13RowName(f map[string]bool) string {
+	b := func(v bool) int {
+		if v {
+			return 1
+		}
+		return 0
+	}
+	return fmt.Sprintf("since_id=%d,until_id=%d,since_now=%d,until_now=%d,reverse_order=%d", b(f["SinceId"]), b(f["UntilId"]), b(f["SinceNow"]), b(f["UntilNow"]), b(f["ReverseOrder"]))
 }
 
 func c13IsReqField(path string) bool {
@@ -2029,12 +2359,13 @@ func c13D6(c *Ctx, h *c13Handler) {
 		return
 	}
 	target := h.List.Block()
-	type req struct {
-		field string
-		kind  string // bool | nil
-		want  bool
+	// the conditions the call of ListEvents is subject to, each as a function of the request
+	type guard struct {
+		want bool
+		desc string
+		eval func(f map[string]bool) (val bool, unsupported string)
 	}
-	var reqs []req
+	var guards []guard
 	var other []string
 	for _, b := range fn.Blocks {
 		if len(b.Instrs) == 0 {
@@ -2050,57 +2381,94 @@ func c13D6(c *Ctx, h *c13Handler) {
 			continue
 		}
 		cond := ifi.Cond
-		kind := "bool"
-		want := domT
 		if bo, ok := cond.(*ssa.BinOp); ok && (bo.Op == token.EQL || bo.Op == token.NEQ) && (isNilConst(bo.X) || isNilConst(bo.Y)) {
-			kind = "nil"
-			cond = bo.X
+			inner := bo.X
 			if isNilConst(bo.X) {
-				cond = bo.Y
+				inner = bo.Y
 			}
-			want = domT == (bo.Op == token.EQL) // required: value is nil
+			ra, ok := h.reqArg(inner)
+			if !ok || ra.Leaf == nil || ra.Leaf.Kind != "param" {
+				if o := h.Scope.resolve(inner); o.Kind != "result" {
+					other = append(other, o.String())
+				}
+				continue // outcome of an earlier call (error test, lookup) or not a request parameter
+			}
+			name := strings.TrimPrefix(ra.Leaf.Path, ".")
+			eql := bo.Op == token.EQL
+			guards = append(guards, guard{want: domT, desc: name, eval: func(f map[string]bool) (bool, string) { return !f[name] == eql, "" }})
+			continue
 		}
 		o := h.Scope.resolve(cond)
 		switch {
+		case o.Kind == "param" && o.Fn == h.Fn && o.Index == h.ReqIdx && c13IsReqField(o.Path):
+			name, neg := strings.TrimPrefix(o.Path, "."), o.Neg
+			guards = append(guards, guard{want: domT, desc: name, eval: func(f map[string]bool) (bool, string) { return f[name] != neg, "" }})
 		case o.Kind == "result":
-			// outcome of an earlier call (error test, lookup): not a request parameter
-		case o.Kind == "param" && o.Fn == h.Fn && o.Index == h.ReqIdx && o.Path != "":
-			if kind == "bool" {
-				want = want != o.Neg
+			// a predicate over the request (a module function all of whose arguments are made of
+			// request fields) is evaluated; the outcome of any other call is not a request parameter
+			pf := staticCallee(o.Call.Common())
+			if pf == nil || pf.Blocks == nil || !inModule(pf) || o.Path != "" {
+				continue
 			}
-			reqs = append(reqs, req{strings.TrimPrefix(o.Path, "."), kind, want})
+			specs, n, ok := h.reqArgs(o.Call)
+			if !ok || n == 0 || o.Index >= pf.Signature.Results().Len() || !isBoolType(pf.Signature.Results().At(o.Index).Type()) {
+				continue
+			}
+			c.analysed(pf)
+			idx, neg := o.Index, o.Neg
+			guards = append(guards, guard{want: domT, desc: fnName(pf), eval: func(f map[string]bool) (bool, string) {
+				args := make([]c13V, len(specs))
+				for i, ra := range specs {
+					args[i] = ra.value(f)
+				}
+				res, _, outcome, why := c13Run(pf, args)
+				if outcome != "return" {
+					return false, fmt.Sprintf("%s %s: %s", fnName(pf), map[bool]string{true: "panics", false: "is written in a form the evaluator does not model"}[outcome == "panic"], why)
+				}
+				bv, isB := res[idx].(c13Bool)
+				if !isB {
+					return false, fnName(pf) + " does not evaluate to a boolean"
+				}
+				return bool(bv) != neg, ""
+			}})
 		default:
 			other = append(other, o.String())
 		}
 	}
-	var bad []string
-	seen := false
-	for _, r := range reqs {
-		switch {
-		case r.field == "SinceNow" && r.kind == "bool" && !r.want:
-			seen = true
-		case r.field == "SinceNow" && r.kind == "bool":
-			bad = append(bad, "previous events are listed only when since_now is SET (inverted)")
-		case r.kind == "nil":
-			bad = append(bad, fmt.Sprintf("the listing additionally requires request field %s to be %s", r.field, map[bool]string{true: "unset", false: "set"}[r.want]))
-		default:
-			bad = append(bad, fmt.Sprintf("the listing additionally requires request field %s to be %v", r.field, r.want))
-		}
-	}
-	sort.Strings(bad)
-	mentioned := false
-	for _, r := range reqs {
-		if r.field == "SinceNow" {
-			mentioned = true
-		}
-	}
-	if !seen && !mentioned {
-		bad = append(bad, "the listing is not skipped when since_now is set: a since_now request replays the past")
-	}
 	if len(other) > 0 {
 		c.note("%s: the call of ListEvents also depends on %s (not a request parameter, not judged)", h.Name, strings.Join(other, ", "))
 	}
-	c.check(len(bad) == 0, "D6", construct, posOf(h.List), "previous events are listed exactly when since_now is unset (given accepted parameters)", strings.Join(bad, "; "))
+	// for every request the parameter table accepts: previous events are listed iff since_now is unset
+	var bad []string
+	nbad := 0
+	for _, f := range c13RequestRows() {
+		if c13B2(f["SinceId"], f["UntilId"], f["SinceNow"], f["UntilNow"], f["ReverseOrder"]) {
+			continue
+		}
+		reached := true
+		for _, g := range guards {
+			v, unsupported := g.eval(f)
+			if unsupported != "" {
+				c.undecided("D6", construct, posOf(h.List), "a condition of the listing cannot be evaluated: %s", unsupported)
+				return
+			}
+			if v != g.want {
+				reached = false
+			}
+		}
+		if reached != !f["SinceNow"] {
+			nbad++
+			if len(bad) < 2 {
+				bad = append(bad, fmt.Sprintf("request [%s]: previous events are %s, they must be %s", c13RowName(f), map[bool]string{true: "listed", false: "not listed"}[reached], map[bool]string{true: "listed", false: "not listed"}[!f["SinceNow"]]))
+			}
+		}
+	}
+	var descs []string
+	for _, g := range guards {
+		descs = append(descs, g.desc)
+	}
+	c.check(nbad == 0, "D6", construct, posOf(h.List), "previous events are listed exactly when since_now is unset, for every request the parameter table accepts (conditions on: "+strings.Join(descs, ", ")+")",
+		fmt.Sprintf("the call of ListEvents (conditions on: %s) is wrong for %d accepted request shapes; %s (since_now set means: only events to come; unset means: replay the past)", strings.Join(descs, ", "), nbad, strings.Join(bad, "; ")))
 }
 
 // ---- D7: no replayed event is lost at the end of the replay ---------------------------
@@ -2368,9 +2736,42 @@ func c13D7(c *Ctx, h *c13Handler) {
 
 // ---- D8: only opened events are emitted -------------------------------------------------
 
+// chanOf: the make(chan) a channel value denotes; a channel handed back by a module helper of
+// the scope is followed into the helper when all its returns hand back the same channel.
 func (st *c13Store) chanOf(v ssa.Value) *ssa.MakeChan {
-	if o := st.Scope.resolve(v); o.Kind == "make" && !o.Neg && o.Path == "" {
-		return o.Make
+	for depth := 0; depth < 4; depth++ {
+		o := st.Scope.resolve(v)
+		if o.Neg || o.Path != "" {
+			return nil
+		}
+		if o.Kind == "make" {
+			return o.Make
+		}
+		if o.Kind != "result" {
+			return nil
+		}
+		f := staticCallee(o.Call.Common())
+		if f == nil || f.Blocks == nil || !st.Scope.inSet[f] {
+			return nil
+		}
+		var ret ssa.Value
+		for _, r := range returnsOf(f) {
+			res := retResults(r)
+			if o.Index >= len(res) {
+				return nil
+			}
+			if isNilConst(res[o.Index]) {
+				continue
+			}
+			if ret != nil && ret != res[o.Index] {
+				return nil
+			}
+			ret = res[o.Index]
+		}
+		if ret == nil {
+			return nil
+		}
+		v = ret
 	}
 	return nil
 }
@@ -2459,6 +2860,8 @@ func c13D8(c *Ctx, st *c13Store) {
 			callee := calleeKey(call.Common())
 			if f := staticCallee(call.Common()); f != nil {
 				callee = fnName(f)
+			} else if callee == "" {
+				callee = "the open callback"
 			}
 			if errResultIndex(call.Common().Signature()) < 0 {
 				undec = append(undec, fmt.Sprintf("the event sent at %s is the result of %s, which reports no error, and is not tested for nil", where, callee))
